@@ -136,6 +136,7 @@ def unit_scaling_backend(
 
         # Go through and mark nodes which represent residual-adds
         residual_layer_number = 1
+        plain_adds = []
         for node in graph.nodes:
             if _is_add(node):
                 is_residual_add = False
@@ -153,15 +154,20 @@ def unit_scaling_backend(
                             skip_node, residual_node = (l, r) if l in r_deps else (r, l)
                             is_sa = _is_self_attention(skip_node, residual_node)
                             node.meta["residual_add"]["is_self_attention"] = is_sa
-                # Regular adds are not picked up by the unit scaling sweep above as
-                # the inbuilt + operation is handled differently when traced. It is
-                # instead substituted for its unit scaled equivalent here.
                 if not is_residual_add:
-                    logger.info("unit scaling function: %s", node)
-                    # None denotes unconstrained. Passed by keyword (as in
-                    # `_unconstrain_node`) so that it can never be supplied twice
-                    kwargs = dict(node.kwargs, constraint=None)
-                    replace_node_with_function(graph, node, U.add, kwargs=kwargs)
+                    plain_adds.append(node)
+
+        # Regular adds are not picked up by the unit scaling sweep above as
+        # the inbuilt + operation is handled differently when traced. They are
+        # instead substituted for their unit scaled equivalent here, once every add has
+        # been classified (replacing nodes earlier would leave erased nodes in the
+        # `dependencies` of later ones, hiding residuals whose skip is a plain sum).
+        for node in plain_adds:
+            logger.info("unit scaling function: %s", node)
+            # None denotes unconstrained. Passed by keyword (as in
+            # `_unconstrain_node`) so that it can never be supplied twice
+            kwargs = dict(node.kwargs, constraint=None)
+            replace_node_with_function(graph, node, U.add, kwargs=kwargs)
 
         # Replace nodes marked as residual-adds with unit scaled equivalent
         for node in graph.nodes:
